@@ -4,7 +4,6 @@ import (
 	"context"
 	"encoding/json"
 	"fmt"
-	"time"
 
 	"github.com/junioryono/godi/v4"
 	"github.com/junioryono/godi/v4/internal/vsched"
@@ -189,12 +188,9 @@ func c18Run(c c18Case) (*Env, []Finding) {
 		}
 		for n := range affected {
 			if sr := e.Scopes[n]; sr != nil && sr.S != nil {
-				select {
-				case <-sr.S.Context().Done():
-				case <-time.After(0):
-					if sr.S.Context().Err() == nil {
-						bad("cancellation-not-observed", c.Ctx[idxOf(n)], fmt.Sprintf("cancelling the caller context of %s is not observed by %s.Context().Done()", cancelRoot, n))
-					}
+				// context cancellation is synchronous: no waiting involved
+				if sr.S.Context().Err() == nil {
+					bad("cancellation-not-observed", c.Ctx[idxOf(n)], fmt.Sprintf("cancelling the caller context of %s is not observed by %s.Context().Done()", cancelRoot, n))
 				}
 			}
 		}
